@@ -210,3 +210,15 @@ PROPS['C19'] = dict(
     assumptions=TRUST + ['the Go race detector (it reports only conflicting accesses it observed)', 'schedules are those the Go scheduler produced on this machine; they are not enumerated'],
     level_note='Schedules are sampled (8 goroutines x 30 calls x rounds per case), not enumerated; the interleaving model (MC_Readers) is exhaustive only over 3 processes x 2 calls. Trusted: the Go race detector, TLC, the digest projection.',
 )
+
+# ---- specification growth beyond the listed properties (not in MANIFEST.json; evidence under evidence_extra/)
+PROPS['X01'] = dict(
+    extra=True, trace=TB, mc=dict(quick=[], thorough=[]), need_kinds=['selsingle', 'selu64', 'fmt'],
+    rule='unexported select family through the verif hooks (select32single at negative, valid and too large i; indexSelectU64 / selectU64Indexed on word patterns) and bitmap.Fmt on every integer type and slices',
+    assumptions=TRUST,
+)
+PROPS['X02'] = dict(
+    extra=True, trace=dict(module='Trace_Misc', cfg='Trace_Misc.cfg'), mc=dict(quick=[], thorough=[]), need_kinds=['minmax', 'toslice', 'attoreader'],
+    rule='mathext/util Min/Max/Clap of all ten integer types (values within +-2^30), typehelper.ToSlice, iohelper.AtToReader with arbitrary read sizes',
+    assumptions=TRUST,
+)
